@@ -328,7 +328,39 @@ Reads == { << <<Def("k", Lam(<<"x", "y">>, "", b))>>,
                 Emit1(P("map", <<V("k"), P("list", <<RArgs[1], RArgs[1]>>), P("list", <<I(5), I(6)>>)>>))>> >>
            : b \in RBodies }
 
+-----------------------------------------------------------------------------
+(* param: parameter objects and parameterize (dynamic binding) x value expression with / without effects x    *)
+(* what the body does (read, read through a function, nest, escape, raise, be re-entered through a continuation) *)
+PGet(n) == App(V(n), << >>)
+PVals == { I(1),
+           Begin(<<Emit1(C(SymV("ev"))), SetE("n", P("+", <<V("n"), I(1)>>)), P("+", <<V("n"), I(10)>>)>>) }
+PShape(ve, w) ==
+  { Begin(<<Parameterize(V("p"), ve, Wrap(w, Begin(<<Emit1(PGet("p")), PGet("p")>>))), Emit1(PGet("p"))>>),
+    Begin(<<Parameterize(V("p"), ve, Wrap(w, Emit1(App(V("f"), << >>)))), Emit1(App(V("f"), << >>))>>),
+    Parameterize(V("p"), ve, Begin(<<Emit1(PGet("p")), Parameterize(V("p"), I(2), Wrap(w, Emit1(PGet("p")))), Emit1(PGet("p"))>>)),
+    Parameterize(V("p"), ve, Parameterize(V("q"), P("+", <<PGet("p"), I(5)>>), Wrap(w, Emit1(P("list", <<PGet("p"), PGet("q")>>))))),
+    Begin(<<Emit1(P("call/cc", <<Lam(<<"esc">>, "", Parameterize(V("p"), ve, Wrap(w, Begin(<<Emit1(PGet("p")), App(V("esc"), <<I(7)>>)>>))))>>)),
+            Emit1(PGet("p"))>>),
+    Begin(<<Emit1(WithHandler(Lam(<<"e">>, "", Begin(<<Emit1(C(SymV("h"))), PGet("p")>>)),
+                              Parameterize(V("p"), ve, Wrap(w, Begin(<<Emit1(PGet("p")), P("car", <<I(0)>>)>>))))),
+            Emit1(PGet("p"))>>),
+    \* re-entry: the body captures its continuation, finishes, and is entered again twice from outside
+    Begin(<<Parameterize(V("p"), ve, Wrap(w, Begin(<<P("call/cc", <<Lam(<<"cc">>, "", SetE("k", V("cc")))>>), Emit1(PGet("p"))>>))),
+            Emit1(PGet("p")), SetE("c", P("+", <<V("c"), I(1)>>)),
+            If(P("<", <<V("c"), I(3)>>), App(V("k"), <<I(0)>>), C(SymV("done")))>>),
+    \* the body assigns the parameter's dynamic value by nesting, leaves and is re-entered
+    Begin(<<Parameterize(V("p"), ve, Begin(<<P("call/cc", <<Lam(<<"cc">>, "", SetE("k", V("cc")))>>),
+                                              Parameterize(V("q"), PGet("p"), Emit1(P("list", <<PGet("p"), PGet("q")>>)))>>)),
+            SetE("c", P("+", <<V("c"), I(1)>>)),
+            If(P("<", <<V("c"), I(2)>>), App(V("k"), <<I(0)>>), C(SymV("done")))>>) }
+Param == { << <<Def("p", MkParam(I(0))), Def("q", MkParam(I(100))), Def("n", I(0)), Def("k", C(BoolV(FALSE))), Def("c", I(0)),
+                Def("f", Lam(<< >>, "", PGet("p")))>>,
+              <<Let(<< >>, sh)>>,
+              <<Emit1(P("list", <<PGet("p"), PGet("q"), V("n")>>))>> >>
+           : sh \in UNION { PShape(ve, w) : ve \in PVals, w \in {0, 1} } }
+
 Programs == CASE FAMILY = "calls" -> Calls
+              [] FAMILY = "param" -> Param
               [] FAMILY = "reads" -> Reads
               [] FAMILY = "wide" -> Wide
               [] FAMILY = "applam" -> AppLam
